@@ -37,12 +37,13 @@ Example guard_print_zero_dropped :
   nm_value [] sX pw_zero (env_of [(sA, 0%Q); (sX, 0%Q)]) = Some 0%Q.
 Proof. repeat split; vm_compute; reflexivity. Qed.
 
-(* guard_cond holds on a nested condition with all three connectives:
-   Or(And(A > 0, Not(Or(B > 0, C > 0))), And(B > 0, C > 0)) *)
+(* guard_cond holds on a nested condition with all three connectives, a 3-ary And and an Or under an And:
+   Or(And(A > 0, Not(Or(B > 0, C > 0)), Or(A > 0, C > 0)), And(B > 0, C > 0)) *)
 Definition cond_ex : scond :=
-  SOr (SAnd (gt0 sA) (SNot (SOr (gt0 sB) (gt0 sC) SNil)) SNil) (SAnd (gt0 sB) (gt0 sC) SNil) SNil.
+  SOr (SAnd (gt0 sA) (SNot (SOr (gt0 sB) (gt0 sC) SNil)) (SCons (SOr (gt0 sA) (gt0 sC) SNil) SNil))
+      (SAnd (gt0 sB) (gt0 sC) SNil) SNil.
 Example guard_cond_nested :
-  guard_cond cond_ex = true /\ length (print_cond cond_ex) = 12%nat /\
+  guard_cond cond_ex = true /\ length (print_cond cond_ex) = 18%nat /\
   match printed_cond cond_ex with Some _ => true | None => false end = true.
 Proof. repeat split; vm_compute; reflexivity. Qed.
 
@@ -58,9 +59,9 @@ Example remap_example :
   [(1, 2); (2, 3); (3, 4)]%nat.
 Proof. vm_compute. reflexivity. Qed.
 
-(* g_sympy / g_printable / syn_disjoint on the categorical example *)
+(* g_sympy / syn_disjoint on the categorical example *)
 Example sympy_printable_example :
-  g_sympy pw_excl = true /\ g_printable pw_excl = true /\ g_sympy pw_block = true /\
+  g_sympy pw_excl = true /\ g_sympy pw_block = true /\
   syn_disjoint (conds_of (stripped [] sX pw_excl)) = true.
 Proof. repeat split; vm_compute; reflexivity. Qed.
 
